@@ -45,3 +45,24 @@ Definition step (xs : list vec) (mu : vec) (S : mat) (nu : Q) : mat * vec :=
   let W := fold_right Qplus 0 ws in
   let munew := map (fun a => Qred (fold_right Qplus 0 (map (fun p => fst p * nth a (snd p) 0) (combine ws xs)) / W)) (seq 0 d) in
   (Sigma, munew).
+
+(** the starting point: coordinate medians, biased covariance + diag(biased variances)/n *)
+Fixpoint insertq (x : Q) (l : list Q) : list Q :=
+  match l with [] => [x] | y :: r => if Qle_bool x y then x :: l else y :: insertq x r end.
+Definition sortq (l : list Q) : list Q := fold_right insertq [] l.
+Definition medq (l : list Q) : Q :=
+  let t := sortq l in
+  let n := length l in
+  if Nat.odd n then nth (Nat.div2 n) t 0
+  else Qred ((nth (Nat.div2 n - 1) t 0 + nth (Nat.div2 n) t 0) / 2).
+Definition column (xs : list vec) (j : nat) : vec := map (fun x => nth j x 0) xs.
+Definition meanq (l : vec) : Q := Qred (fold_right Qplus 0 l / inject_Z (Z.of_nat (length l))).
+Definition covq (a b : vec) : Q :=
+  let ma := meanq a in let mb := meanq b in
+  Qred (fold_right Qplus 0 (map (fun p => (fst p - ma) * (snd p - mb)) (combine a b)) / inject_Z (Z.of_nat (length a))).
+Definition init (xs : list vec) : mat * vec :=
+  let d := length (hd [] xs) in
+  let nQ := inject_Z (Z.of_nat (length xs)) in
+  (map (fun a => map (fun b => let c := covq (column xs a) (column xs b) in
+                               if Nat.eqb a b then Qred (c + c / nQ) else c) (seq 0 d)) (seq 0 d),
+   map (fun a => medq (column xs a)) (seq 0 d)).
